@@ -266,12 +266,12 @@ reg(C05("C05"))
 
 
 class C13(TreeCheck):
-    obligations = [("main", "BlockShapes", "parseBlocks_block_shapes_partial"), ("main", "BlockShapes", "parseFull_block_shapes_partial"), ("main", "BlockShapes", "parseFull_block_shapes_prefill_partial"), ("main", "BlockShapesNul", "parseFull_block_shapes_aligned_partial"), ("main", "ShapesCS", "parseCodeSpan_shape"), ("main", "ShapesA", "parseAutolink_shape"), ("main", "ShapesA", "parseCharacterEscape_shape"), ("main", "ShapesA", "parseHardLineBreakSpace_hard_iff"), ("main", "ShapesHT", "parseHTMLTag_shape"), ("main", "ShapesA", "parseDelimiterRun_shape"), ("main", "ShapesComp3", "parseInlines_codespan_shapes_partial"), ("main", "ComposeShapes", "parseBlocks_inline_shapes"), ("main", "ComposeShapes", "parseBlocks_shapeHyp"), ("main", "InlineShapes", "parseInlines_shapes"), ("main", "ShapeHyp", "bikOKX'_eq"), ("main", "ShapeHyp", "rewrite_roots_inline_shapes"),
+    obligations = [("main", "C13Full", "C13_partial"), ("main", "C13Full", "C13_of_exempt"), ("main", "BlockShapesAll", "parseFull_block_shapes"), ("main", "BlockShapesAll", "parseBlocks_block_shapes"), ("main", "BlockShapes", "parseBlocks_block_shapes_partial"), ("main", "BlockShapes", "parseFull_block_shapes_partial"), ("main", "BlockShapes", "parseFull_block_shapes_prefill_partial"), ("main", "BlockShapesNul", "parseFull_block_shapes_aligned_partial"), ("main", "ShapesCS", "parseCodeSpan_shape"), ("main", "ShapesA", "parseAutolink_shape"), ("main", "ShapesA", "parseCharacterEscape_shape"), ("main", "ShapesA", "parseHardLineBreakSpace_hard_iff"), ("main", "ShapesHT", "parseHTMLTag_shape"), ("main", "ShapesA", "parseDelimiterRun_shape"), ("main", "ShapesComp3", "parseInlines_codespan_shapes_partial"), ("main", "ComposeShapes", "parseBlocks_inline_shapes"), ("main", "ComposeShapes", "parseBlocks_shapeHyp"), ("main", "InlineShapes", "parseInlines_shapes"), ("main", "ShapeHyp", "bikOKX'_eq"), ("main", "ShapeHyp", "rewrite_roots_inline_shapes"),
                    ("main", "EntriesOK", "parseBlocks_entries_ok_partial"), ("main", "EntriesOK", "parseFull_codespan_shapes"), ("main", "EntDefs", "parseBlocks_entries_ok_statement_false"), ("main", "Shapes", "hardbreak_line_shape"), ("main", "Shapes", "codespan_shapes_statement_false"), ("main", "Rec16", "parseListMarker_sound"), ("main", "Rec17", "parseCodeFence_sound"), ("recog", "ATXProof", "parseATXHeading_correct"),
                    ("main", "Rec15", "parseSetext_correct")]
     proj = staticmethod(proj_kindspans)
     what = "(kind, span) of every node"
-    assumptions = ["block level: for every input without NUL bytes, every block node of every root has a valid span and the shape of its construct (list marker = bullet or 1-9 digits + '.'/')'; ATX heading starts with exactly its level of '#'; setext heading ends in its underline character; fenced code starts with its fence; block quote starts with '>') (parseFull_block_shapes_partial); for every input the same holds of the root's text before NUL filling (…_prefill_partial) and of the Source itself whenever the cut positions do not split a padded NUL (…_aligned_partial); that alignment for inputs with NUL is the open obligation shared with C01", "partial: scanner-level shape theorems for every kind of leaf-like construct (parseCodeSpan_shape: equal backtick runs; parseAutolink_shape, parseHTMLTag_shape: '<...>'; parseCharacterEscape_shape: '&...;'; parseHardLineBreakSpace_hard_iff; parseDelimiterRun_shape: copies of one of * or _) and, end to end through the whole inline parser, every CodeSpanKind node of parseInlines has the code-span shape for containers satisfying the executable condition bikOK (parseInlines_codespan_shapes_partial; without a condition the statement is false for arbitrary entry lists, witness proved); the recognizer theorems give the shape at creation for list markers, fences, ATX and setext lines", "inline level, all kinds and depths: for every leaf block whose entries satisfy the executable condition bikOK' (bikOK, childless Unparsed/RawHTML/Indent entries, line-ending bytes only as a suffix of each entry), every inline node of parseInlines has a valid span and the shape of its construct (InlineShapes.parseInlines_shapes = Props.shapesI; lifted to root blocks in ShapeHyp.rewrite_roots_inline_shapes); the run evaluates that condition on the implementation's own pre-inline trees; bikOK itself is proved of the block layer's output for every input except the empty entry of a content-less ATX heading (EntriesOK.parseBlocks_entries_ok_partial; the unrestricted statement is false, witness '#' proved), and code-span shapes are proved for every input outright (EntriesOK.parseFull_codespan_shapes); and the whole hypothesis is proved of the block layer's output for every input (ComposeShapes.parseBlocks_shapeHyp), hence for every input and matcher every inline node produced by Rewrite has a valid span and the shape of its construct (ComposeShapes.parseBlocks_inline_shapes)"]
+    assumptions = ["whole trees: for every input, Props.shapesB holds of every root of parseFull except on two kinds of entries (C13Full.C13_partial: every block node, every inline node of rewritten paragraphs and headings, all entries of indented code, HTML blocks and the text lines of fenced code have a valid span and the shape of their construct); the exempted entries are the info string of a fenced code block and the label / destination / title entries of a link reference definition, for which no invariant gives valid spans of the children and the character-reference shape yet; C13_of_exempt reduces Props.C13_statement to exactly that; block shapes hold for every input, NUL included, with no alignment condition (BlockShapesAll.parseFull_block_shapes)", "block level (earlier, weaker forms): for every input without NUL bytes, every block node of every root has a valid span and the shape of its construct (list marker = bullet or 1-9 digits + '.'/')'; ATX heading starts with exactly its level of '#'; setext heading ends in its underline character; fenced code starts with its fence; block quote starts with '>') (parseFull_block_shapes_partial); for every input the same holds of the root's text before NUL filling (…_prefill_partial) and of the Source itself whenever the cut positions do not split a padded NUL (…_aligned_partial); that alignment for inputs with NUL is the open obligation shared with C01", "partial: scanner-level shape theorems for every kind of leaf-like construct (parseCodeSpan_shape: equal backtick runs; parseAutolink_shape, parseHTMLTag_shape: '<...>'; parseCharacterEscape_shape: '&...;'; parseHardLineBreakSpace_hard_iff; parseDelimiterRun_shape: copies of one of * or _) and, end to end through the whole inline parser, every CodeSpanKind node of parseInlines has the code-span shape for containers satisfying the executable condition bikOK (parseInlines_codespan_shapes_partial; without a condition the statement is false for arbitrary entry lists, witness proved); the recognizer theorems give the shape at creation for list markers, fences, ATX and setext lines", "inline level, all kinds and depths: for every leaf block whose entries satisfy the executable condition bikOK' (bikOK, childless Unparsed/RawHTML/Indent entries, line-ending bytes only as a suffix of each entry), every inline node of parseInlines has a valid span and the shape of its construct (InlineShapes.parseInlines_shapes = Props.shapesI; lifted to root blocks in ShapeHyp.rewrite_roots_inline_shapes); the run evaluates that condition on the implementation's own pre-inline trees; bikOK itself is proved of the block layer's output for every input except the empty entry of a content-less ATX heading (EntriesOK.parseBlocks_entries_ok_partial; the unrestricted statement is false, witness '#' proved), and code-span shapes are proved for every input outright (EntriesOK.parseFull_codespan_shapes); and the whole hypothesis is proved of the block layer's output for every input (ComposeShapes.parseBlocks_shapeHyp), hence for every input and matcher every inline node produced by Rewrite has a valid span and the shape of its construct (ComposeShapes.parseBlocks_inline_shapes)"]
 
     def jobs(self, seed, tier):
         js = TreeCheck.jobs(self, seed, tier)
